@@ -275,3 +275,21 @@ theorem nonvacuous_tie :
 theorem nonvacuous_tiefree : ((emit exR exL).map (·.path)).Nodup := by decide +kernel
 
 end Ytk.C07
+
+/-! ## gap7a: the converse of `diff_nil_flatten` is false -/
+namespace Ytk.C07
+
+/-- `Flatten(L) = Flatten(R)` does NOT imply `Diff(L, R) = []` (the property claims only the other
+    direction): an empty keyed container, an empty list or a kind difference between empty composites is
+    invisible in Flatten but reported by Diff.  (Without empty composites below the root the converse
+    holds: `C02.diff_nil_iff_flatten`.) -/
+theorem diff_nonempty_same_flatten_counterexample :
+    (Node.cont ([] : AMap Node)).Valid ∧ (Node.cont [("a", .cont [])]).Valid ∧
+    flatten ([] : AMap Node) = flatten [("a", .cont [])] ∧
+    diff [] [("a", .cont [])] = [Mod.mkDel "a"] ∧
+    flatten [("a", Node.cont [])] = flatten [("a", .list [])] ∧
+    diff [("a", .cont [])] [("a", .list [])] = [Mod.mkDel "a"] :=
+  ⟨Node.validB_sound _ (by decide +kernel), Node.validB_sound _ (by decide +kernel), by decide +kernel,
+   by decide +kernel, by decide +kernel, by decide +kernel⟩
+
+end Ytk.C07
